@@ -42,9 +42,13 @@ Lemma zstep_inv zc z o :
       z_y z' = z_y z /\
       (* the completion edits at most the table of the universe the port is on NOW *)
       (forall a, s_puniv (zbase z) p <> Some a -> z_uids z' a = z_uids z a)
+    | ZAddDup _ | ZDevStart _ => z' = z
     end.
 Proof.
-  intros (YI & T). destruct o as [yo | p us]; cbn [zstep].
+  intros (YI & T). destruct o as [yo | p us | p | d]; cbn [zstep].
+  3:{ destruct (port_of _ _ p) as [pc|]; [destruct (dev_cfg _ (pc_dev pc))|];
+        eexists _, _; (split; [reflexivity|]; split; [split; assumption | reflexivity]). }
+  3:{ destruct (dev_cfg _ d); eexists _, _; (split; [reflexivity|]; split; [split; assumption | reflexivity]). }
   - destruct (ystep_inv (zc_xc zc) (z_y z) yo YI) as (y' & r & E & YI' & _). rewrite E.
     eexists _, r. split; [reflexivity|]. split; [|reflexivity]. split; [exact YI'|].
     intros a uid q Hin. cbn [z_uids] in Hin. apply filter_In in Hin. destruct Hin as (_ & Hf).
@@ -75,7 +79,7 @@ Fixpoint zproj (ops : list zop) : list yop :=
   match ops with
   | [] => []
   | ZY yo :: r => yo :: zproj r
-  | ZFire _ _ :: r => zproj r
+  | _ :: r => zproj r
   end.
 
 Lemma zrun_proj zc ops : forall z z', ZInv zc z ->
@@ -84,9 +88,11 @@ Proof.
   induction ops as [|o r IH]; intros z z' ZI E; cbn in E.
   - injection E as <-. reflexivity.
   - destruct (zstep_inv zc z o ZI) as (z1 & r1 & E1 & ZI1 & Sp). rewrite E1 in E.
-    destruct o as [yo | p us]; cbn [zproj].
+    destruct o as [yo | p us | p | d]; cbn [zproj].
     + cbn [yrun]. rewrite Sp. exact (IH z1 z' ZI1 E).
     + destruct Sp as (Ey & _). rewrite <- Ey. exact (IH z1 z' ZI1 E).
+    + subst z1. exact (IH z z' ZI1 E).
+    + subst z1. exact (IH z z' ZI1 E).
 Qed.
 
 (* ---------- the statements of Properties.v *)
@@ -116,4 +122,17 @@ Proof.
   assert (z0 = z) as -> by congruence.
   destruct (zstep_inv zc z (ZFire p us) ZI) as (z' & r & E1 & _ & Sp).
   exists z', r. split; [exact E1 | exact Sp].
+Qed.
+
+Lemma c03_addport_duplicate_ignored_l : forall (zc : zcfg) (ops : list zop) (z : zstate) (p : N),
+  zrun zc (zinit zc) ops = Some z ->
+  exists r, zstep zc z (ZAddDup p) = ZOk z r /\
+    (forall pc dc, port_of (xc_cfg (zc_xc zc)) (zbase z) p = Some pc ->
+                   dev_cfg (xc_cfg (zc_xc zc)) (pc_dev pc) = Some dc -> r = RBool true).
+Proof.
+  intros zc ops z p _. cbn [zstep]. destruct (port_of _ _ p) as [pc|].
+  - destruct (dev_cfg _ (pc_dev pc)) as [dc|] eqn:Ed.
+    + exists (RBool true). split; [reflexivity|]. intros; reflexivity.
+    + exists RUnit. split; [reflexivity|]. intros pc2 dc2 H1 H2. injection H1 as <-. congruence.
+  - exists RUnit. split; [reflexivity|]. intros pc2 dc2 H1. discriminate.
 Qed.
